@@ -198,7 +198,7 @@ Section MC.
       destruct (tbl a) eqn:E; simpl in Hf.
       - apply IH in Hf. destruct Hf as (H1 & H2 & H3). repeat split; try lia; [exact H2|].
         intros l Ha Hb. destruct (Nat.eq_dec l a); [subst; exact E | apply H3; lia].
-      - inversion Hf; subst. repeat split; try lia; [congruence|]. intros; lia. }
+      - inversion Hf; subst. repeat split; try lia; try congruence; try (intros; lia). }
     apply G in H. destruct H as (H1 & H2 & H3). repeat split; [lia | exact H2 |].
     intros l Hl. apply H3; lia.
   Qed.
@@ -212,10 +212,10 @@ Section MC.
   Lemma level_strings_cur : level_strings_f ipf cpf lnf maxl T = cur_rest lnf f_len maxl 0 0.
   Proof.
     unfold level_strings_f, all_levels.
-    rewrite <- (levels_cur_rest lnf (fun Ll k => cur_rest ipf (f_ip k Ll) maxl 0 0) 0 maxl 0).
-    apply flat_map_ext. intro Ll. apply flat_map_ext. intro k.
-    rewrite <- (levels_cur_rest ipf (fun Li ip => ip_strings cpf maxl k (T - Z.of_nat Ll - Z.of_nat Li) ip) [] maxl 0).
-    reflexivity.
+    transitivity (flat_map (fun Ll => flat_map (fun k => cur_rest ipf (f_ip k Ll) maxl 0 0) (lnf Ll)) (seq 0 (S maxl))).
+    - apply flat_map_ext. intro Ll. apply flat_map_ext. intro k.
+      exact (levels_cur_rest ipf (fun Li ip => ip_strings cpf maxl k (T - Z.of_nat Ll - Z.of_nat Li) ip) [] maxl 0).
+    - exact (levels_cur_rest lnf (fun Ll k => cur_rest ipf (f_ip k Ll) maxl 0 0) 0 maxl 0).
   Qed.
 
   Lemma compl_neg : forall k p lvl, 1 <= k -> (lvl < 0)%Z -> compl k p lvl = [].
@@ -275,7 +275,7 @@ Section MC.
   Lemma gs_list_ok_compl : forall st, gs_list_ok st (compl (K st) (IPS st) (TG st)).
   Proof.
     intro st. unfold gs_list_ok. destruct (compl (K st) (IPS st) (TG st)) as [|t ys] eqn:E; [exact I|].
-    split; [rewrite E; left; reflexivity | eapply rem_of_hd; exact E].
+    split; [left; reflexivity | eapply rem_of_hd; exact E].
   Qed.
 
   Definition upd_tree (st : mc_state) (t : tree) : mc_state :=
@@ -314,9 +314,11 @@ Section MC.
         { unfold mu in *. cbn [mc_ip mc_len st' fst snd] in *. fold (cnt ipf) in *.
           assert (cnt ipf (maxl - fst (mc_ip st)) (fst (mc_ip st)) (S (snd (mc_ip st))) =
                   S (cnt ipf (maxl - l') l' (S i'))) as E1.
-          { unfold cnt. rewrite B4. simpl. do 2 f_equal. lia. }
+          { unfold cnt. rewrite B4. unfold unitf at 1. simpl. f_equal.
+            replace (fst (mc_ip st) + (maxl - fst (mc_ip st)) - l') with (maxl - l') by lia. reflexivity. }
           lia. }
-        specialize (IH c' st' (compl (K st') (IPS st') (TG st')) HT (conj Hvl1 Hvl2) (conj ltac:(simpl; lia) A1) G2
+        assert (Hvi' : cur_valid ipf (mc_ip st')) by (split; unfold st'; simpl; [lia | exact A1]).
+        specialize (IH c' st' (compl (K st') (IPS st') (TG st')) HT (conj Hvl1 Hvl2) Hvi' G2
                        (gs_list_ok_compl st') Hmu').
         cbv zeta in IH. destruct IH as [I1 I2]. split; [exact I1|].
         unfold rest_ip at 1. rewrite A4.
@@ -348,7 +350,8 @@ Section MC.
           { unfold mu in *. cbn [mc_ip mc_len st' fst snd] in *.
             assert (cnt lnf (maxl - fst (mc_len st)) (fst (mc_len st)) (S (snd (mc_len st))) =
                     S (cnt lnf (maxl - l') l' (S i'))) as E1.
-            { unfold cnt. rewrite B4. simpl. do 2 f_equal. lia. }
+            { unfold cnt. rewrite B4. unfold unitf at 1. simpl. f_equal.
+              replace (fst (mc_len st) + (maxl - fst (mc_len st)) - l') with (maxl - l') by lia. reflexivity. }
             pose proof (cnt_valid_lt ipf (s_ip, 0) Hvi') as E2. cbn [fst snd] in E2. fold total_ip in E2.
             rewrite E1 in Hmu. simpl in Hmu. lia. }
           specialize (IH c' st' (compl (K st') (IPS st') (TG st')) HT Hvl' Hvi' G2 (gs_list_ok_compl st') Hmu').
@@ -469,7 +472,11 @@ Section MC.
     fst (fst (fst res)) = firstn n R /\
     snd (fst (fst res)) = run_status n R /\
     cok (snd res) /\
-    (n <= length R -> state_ok (snd (fst res)) (skipn n R)).
+    (n <= length R ->
+     match n with
+     | 0 => snd (fst res) = st
+     | S _ => inv (snd (fst res)) /\ remaining (snd (fst res)) = skipn n R
+     end).
   Proof.
     induction n as [|n IH]; intros c st R Hst Hc.
     - simpl. repeat split; auto.
@@ -487,15 +494,19 @@ Section MC.
       cbv zeta in Hstep. destruct Hstep as [S1 S2].
       destruct (mc_next ipf cpf lnf maxl optmax (mc_fuel ipf lnf maxl) (s_ip, s_len) c st) as [[o st'] c'] eqn:En.
       cbn [fst snd] in *. destruct R as [|g tl].
-      + subst o. cbn [fst snd]. repeat split; auto. simpl. intro; lia.
+      + subst o. cbn [fst snd]. split; [reflexivity|]. split; [reflexivity|]. split; [exact S1|].
+        simpl. intro Hn. lia.
       + destruct S2 as (S2 & S3 & S4). subst o.
         specialize (IH c' st' tl (or_intror (conj S3 S4)) S1). cbv zeta in IH.
         destruct (mc_run ipf cpf lnf maxl optmax n (mc_fuel ipf lnf maxl) (s_ip, s_len) c' st') as [[[l o2] st2] c2].
         cbn [fst snd] in *. destruct IH as (I1 & I2 & I3 & I4).
-        repeat split.
-        * simpl. rewrite I1. reflexivity.
-        * rewrite I2. unfold run_status. simpl. reflexivity.
-        * exact I3.
-        * simpl. intro Hn. apply I4. lia.
+        split; [simpl; rewrite I1; reflexivity|].
+        split; [rewrite I2; unfold run_status; simpl; reflexivity|].
+        split; [exact I3|].
+        intro Hn. simpl in Hn. specialize (I4 ltac:(lia)).
+        destruct n as [|n']; [subst st2; split; [exact S3 | exact S4] | exact I4].
   Qed.
+
+  Lemma run_status_not_oof : forall n R, run_status n R <> OutOfFuel.
+  Proof. intros n R. unfold run_status. destruct (Nat.leb n (length R)); discriminate. Qed.
 End MC.
